@@ -27,7 +27,8 @@ ASSUMPTIONS = [
     'the scaled training data are read from the implementation (DataSet scaling itself is C18); the scaling to '
     '[0.05, 0.95] is checked by the oracle only',
     'sklearn train_test_split is not modelled: the training split is read from the implementation (its size is checked)',
-    'Opticom: only the property clause (coefficients sum to one) and the shared normalisation step are checked',
+    'Opticom: the sum-to-one clause for all variants; option 3 completely against the model (entry points 8/9), option 2 through '
+    'the certificate opticom2_certified, for training steps within the cost cap; option 1 only through its last step',
     'positive semi-definiteness for d >= 2: verified checker psd_check on the model specification matrix (<= 30 hats) and on the '
     'exact image of the implementation matrix (<= 9 hats); larger implementation matrices (<= 64 hats) by the Python exact '
     'elimination only, which is cross-checked against psd_check on the smaller ones',
@@ -862,6 +863,9 @@ def _step(r, case, args):
     if after_obs != out['surpluses'] and 'surpluses' not in changed:
         out['observer_changed'] = changed + ['surpluses']
     saved = [g.coefficient for g in combi.scheme]
+    out['coefs0'] = [float(c) for c in saved]
+    if len(r.validation_target_values) <= 80:
+        out['val_data'] = _de.tolist(r.validation_data); out['val_y'] = _de.tolist(r.validation_target_values)
     opt = {}
     for option in (1, 2, 3):
         for g, c in zip(combi.scheme, saved):
@@ -1267,6 +1271,108 @@ def _units_of_step(chk, c, rep, r):
     return us
 
 
+def _opticom_request(c, r):
+    """model request for the coefficient optimisation of one training step (None when too expensive / not observable)"""
+    if 'val_data' not in r or not r['scheme'] or len(r['scheme']) > 12:
+        return None
+    k = c['kind']
+    grids = []
+    if k == 'train':
+        for lv in r['scheme']:
+            grids.append((_de.uniform_stripes(lv), lv, r['surpluses'][_lvkey(lv)]))
+    else:
+        if r['n_calls'] > 12:
+            return None
+        final = {}
+        for rec in r['calls']:
+            final[_lvkey(rec['lv'])] = rec
+        for lv in r['scheme']:
+            rec = final.get(_lvkey(lv))
+            if rec is None:
+                return None
+            grids.append((fr(rec['stripes']), fr(rec['stripes']), r['surpluses'][_lvkey(lv)]))
+    nh = 0
+    for st, _, _ in grids:
+        n = 1
+        for x in st:
+            n *= len(x) - 2
+        nh += n
+    vd, vy = fr(r['val_data']), fr(r['val_y'])
+    cost = nh * len(vd) * c['dim'] ** 2      # exact interpolation in the extracted model: about 1-3 ms per unit
+    if cost > 1200:
+        return None
+    # exact predictions (oracle side) and the scale factor that turns the returned option-2 coefficients into raw ones
+    preds = []
+    for st, _, al in grids:
+        A = spec_A(st, vd)
+        a = fr(al)
+        preds.append([sum((x * w for x, w in zip(row, a) if x != 0), F(0)) for row in A])
+    raw2 = []
+    o2 = r['opticom'][2]
+    if o2[0] == 'ok' and all(math.isfinite(x) for x in o2[1]) and o2[1] != r['coefs0']:
+        cp = fr(o2[1]); nv = len(vd); ng = len(preds)
+        b = [sum((p * t for p, t in zip(preds[i], vy)), F(0)) / nv for i in range(ng)]
+        Mc = [sum((preds[i][j] * cp[i] for i in range(ng)), F(0)) for j in range(nv)]
+        g = [sum((p * t for p, t in zip(preds[i], Mc)), F(0)) / nv for i in range(ng)]
+        den = sum((x * y_ for x, y_ in zip(g, b)), F(0))
+        if den != 0:
+            # a binary64 value of the factor is enough for the certificate (tolerance 1e-8) and keeps the rationals short
+            sc = F(float(sum((x * x for x in b), F(0)) / den))
+            raw2 = [F(float(sc * x)) for x in cp]
+    sub = 8 if k == 'train' else 9
+    return sub, [[g[1] for g in grids], [fr(g[2]) for g in grids], fr(r['coefs0']), vd, vy, raw2, TOL_RES], preds, bool(raw2), cost
+
+
+def _check_opticom_model(chk, c, rep, r, req, res):
+    """option 3 completely and option 2 through its certificate against the model"""
+    sub, args, preds, has2, _cost = req
+    variant = 'adaptive' if c['kind'] == 'train-adaptive' else 'standard'
+    if sx.is_err(res) or isinstance(res, tuple):
+        chk.violation('corr:C20/model', 'model-rejects', dict(obs='opticom'), rep, str(res)[:300], failing_input=False)
+        return False
+    coef3_m, errs_m, preds_m, cert2, norm2 = [sx.q(x) for x in res[0]], [sx.q(x) for x in res[1]], qmat(res[2]), res[3], res[4]
+    if preds_m != preds:
+        chk.violation('corr:C20/opticom-spec', 'model-spec-vs-oracle', dict(obs='predictions', variant=variant), rep,
+                      'Coq predictions at the validation points differ from the Python oracle', failing_input=False)
+        return False
+    chk.count('opticom-model-checked(%s)' % variant)
+    ok = True
+    vy = args[4]; coefs0 = args[2]
+    o3 = r['opticom'][3]
+    if o3[0] == 'ok' and all(math.isfinite(x) for x in o3[1]):
+        got = fr(o3[1])
+        if any(e == 0 for e in errs_m):
+            # a grid reproduces the validation targets exactly (in exact arithmetic): degenerate branch of the model
+            chk.count('opticom3-degenerate-in-exact-arithmetic')
+        else:
+            raw = [c0 / e for c0, e in zip(coefs0, errs_m)]
+            ssum = sum(raw, F(0))
+            ymax = max([abs(t) for t in vy] + [F(1, 10 ** 300)])
+            amp = float(max(ymax * ymax / e for e in errs_m)) ** 0.5
+            if ssum != 0:
+                amp *= float(sum((abs(x) for x in raw), F(0)) / abs(ssum))
+            tol = 1e-10 * (1.0 + amp) * 10
+            if ssum == 0 or tol > 1e-3:
+                chk.count('opticom3-ill-conditioned-skipped')
+            elif not all(_de.close(a, b, tol, 0, tol) for a, b in zip(got, coef3_m)):
+                chk.violation('corr:C20/opticom3', 'opticom3-differs', dict(variant=variant, option=3), rep,
+                              dict(impl=o3[1], model=[float(x) for x in coef3_m], validation_errors=[float(e) for e in errs_m],
+                                   tolerance=tol), failing_input=False)
+                ok = False
+            else:
+                chk.count('opticom3-coefficients-agree')
+    if has2:
+        if cert2 != 1:
+            chk.violation('corr:C20/opticom2', 'opticom2-not-least-squares', dict(variant=variant, option=2), rep,
+                          dict(impl=r['opticom'][2][1], detail='the returned coefficients are not the normalised least-squares '
+                               'coefficients over the validation points (certificate rejected by residual_ok_floor)'),
+                          failing_input=False)
+            ok = False
+        else:
+            chk.count('opticom2-certified')
+    return ok
+
+
 def _check_opticom(chk, c, rep, r):
     ok = True
     k = c['kind']
@@ -1398,6 +1504,23 @@ def process(chk, cases, verbose=False):
             units += us
     # ---- model calls (three tiers by cost)
     mc, slot = [], []
+    opt_reqs = []
+    opt_budget = chk.n(10000, 200000)
+    for (i, s, rep, sst, sr), us in zip(steps, step_units):
+        if us is None or s['kind'] not in ('train', 'train-adaptive'):
+            continue
+        req = _opticom_request(s, sr)
+        if req is None:
+            chk.count('opticom-model-skipped(cost or not observable)')
+            continue
+        opt_budget -= req[4]
+        if opt_budget < 0:
+            chk.count('opticom-model-skipped(budget of the run used up)')
+            continue
+        if req is not None:
+            holder = {}
+            opt_reqs.append((s, rep, sr, req, holder))
+            mc.append((req[0], req[1])); slot.append((holder, 'res'))
     nbig = 0
     for u in units:
         c = u.c
@@ -1421,7 +1544,10 @@ def process(chk, cases, verbose=False):
             mc.append((7, [fr(u.C_i)])); slot.append((u, 'resP'))
     t0 = time.time()
     for (u, name), res in zip(slot, run_model(20, mc, nproc=max(1, min(16, int(os.environ.get('VERIF_NPROC', '0') or 16))))):
-        setattr(u, name, res)
+        if isinstance(u, dict):
+            u[name] = res
+        else:
+            setattr(u, name, res)
     t_model = time.time() - t0
     t0 = time.time()
     # ---- compare
@@ -1429,10 +1555,13 @@ def process(chk, cases, verbose=False):
     oks = {}
     for u in units:
         oks[id(u)] = _check_grid(chk, u)
+    opt_ok = {}
+    for (s_, rep_, sr_, req, holder) in opt_reqs:
+        opt_ok[id(sr_)] = _check_opticom_model(chk, s_, rep_, sr_, req, holder.get('res'))
     for (i, s, rep, sst, sr), us in zip(steps, step_units):
         if us is None:
             continue
-        ok = all(oks[id(u)] for u in us)
+        ok = all(oks[id(u)] for u in us) and opt_ok.get(id(sr), True)
         if s['kind'] in ('train', 'train-adaptive'):
             ok = _check_opticom(chk, s, rep, sr) and ok
         if verbose:
